@@ -5,6 +5,7 @@ CONSTANTS
   FetchMax = 2
   WideEvery = 0
   OffsetReset = "all"
+  LateResp = "drop"
   HWFallback = FALSE
   ElectAlive = FALSE
   AllowLag = FALSE
@@ -17,6 +18,7 @@ CONSTANTS
   Policies = {"ALL", "LEADER", "NONE"}
   UseCheckpoint = TRUE
   MaxPause = 0
+  MaxHold = 0
   Batch = 1
   IgnoreTaints = TRUE
 CHECK_DEADLOCK FALSE
